@@ -60,7 +60,11 @@ ColTerms(q) == CASE q.k = "Select" -> Cells(q.ch[2])
                  [] q.k = "SelectMany" -> ElemCells(q.ch[2])
                  [] q.k \in {"Where", "Root"} -> ColTerms(q.ch[1])
                  [] OTHER -> {}
-Support(q) == IF \E c \in ColTerms(q) : IsVecTerm(c) THEN "MAY" ELSE "MUST_ACCEPT"
+NCols(q) == LET rt == TypeOf(q, <<>>, [collClass |-> CollClass, collType |-> CollClass, decls |-> Decls]).e IN
+            IF rt.t \in {"tup", "dict"} THEN Len(rt.v) ELSE 1
+\* a column / label count mismatch in an explicit AsROOTTTree is an error
+Support(q) == IF q.k = "Root" /\ q.n # NCols(q.ch[1]) THEN "MUST_REJECT"
+              ELSE IF \E c \in ColTerms(q) : IsVecTerm(c) THEN "MAY" ELSE "MUST_ACCEPT"
 
 \* per backend: python collection name, C++ container type, C++ element type, elements held by pointer?
 Backends == [
